@@ -86,6 +86,12 @@ func init() {
 			if n.IsConst() && n.Val == 0 {
 				panic(pathEnd{"infeasible", "vnChoice with no alternatives"})
 			}
+			if n.IsConst() {
+				// enumerate without the solver; the input keeps its name for replay
+				i := x.choose(int(n.Val))
+				x.addPC(x.B.Eq(v, x.c64(uint64(i))))
+				return x.c64(uint64(i))
+			}
 			x.addPC(x.B.ULT(v, n))
 			return x.c64(x.concretize(v, "vnChoice"))
 		},
@@ -161,6 +167,22 @@ func init() {
 		"vor":        func(x *X, fn *ssa.Function, a []Value) Value { return x.B.Or(a[0].(*T), a[1].(*T)) },
 		"vimplies":   func(x *X, fn *ssa.Function, a []Value) Value { return x.B.Implies(a[0].(*T), a[1].(*T)) },
 		"vcutActive": func(x *X, fn *ssa.Function, a []Value) Value { return x.B.Bool(len(x.Cfg.Cuts) > 0) },
+		"vclockWithin": func(x *X, fn *ssa.Function, a []Value) Value {
+			// every later clock reading is at most d ns after the current instant
+			now := x.clock()
+			d := a[0].(*T)
+			x.addPC(x.B.ULT(d, x.c64(1<<60)))
+			lim := x.B.Add(now, d)
+			x.addPC(x.B.ULT(lim, x.c64(1<<61)))
+			x.clockMax = lim
+			return nil
+		},
+		"vclockFreeze": func(x *X, fn *ssa.Function, a []Value) Value {
+			// every clock reading from now on returns one (arbitrary) instant
+			x.clock()
+			x.clockFrozen = true
+			return nil
+		},
 		"vrandPush": func(x *X, fn *ssa.Function, a []Value) Value { x.ghostAppend("randq", a[0]); return nil },
 		"vparam": func(x *X, fn *ssa.Function, a []Value) Value {
 			if v, ok := x.Params[x.strArg(a[0])]; ok {
@@ -543,17 +565,19 @@ func (x *X) rwCells(v Value) (*ScalarLoc, *ScalarLoc) {
 // clock returns a fresh instant >= the previous one (monotone clock, ns, signed 64 bit,
 // within [0, 2^61) so that durations never overflow).
 func (x *X) clock() *T {
+	if x.clockFrozen && x.mono != nil {
+		return x.mono
+	}
 	t := x.input(x.inputName("now"), 64)
 	lo := x.mono
 	if lo == nil {
 		lo = x.c64(1) // never the zero time
 	}
 	c := x.B.And(x.B.ULE(lo, t), x.B.ULT(t, x.c64(1<<61)))
-	r, _ := x.check([]*T{c}, nil)
-	if r == smt.Unsat {
-		panic(pathEnd{"infeasible", "clock"})
+	if x.clockMax != nil {
+		c = x.B.And(c, x.B.ULE(t, x.clockMax))
 	}
-	x.addPC(c)
+	x.addPC(c) // always satisfiable: lo <= clockMax < 2^61 by construction
 	x.mono = t
 	return t
 }
